@@ -276,4 +276,833 @@ theorem weightedPick_support {α : Type} (c : Config) (xs : List (α × Rat)) (a
         simp only [List.mem_map, Prod.mk.injEq, Pick.picked.injEq] at h
         obtain ⟨x, hx, rfl, _⟩ := h
         exact ⟨x.2, hx⟩
+
+/-! ### the pick of `do choose` / `do shuffle` -/
+
+def totalW (l : List Item) : Rat := (l.map (·.weight)).sum
+
+theorem sumW_items (l : List Item) : sumW (l.map fun x => (x, x.weight)) = totalW l := by
+  simp [sumW, totalW, Function.comp_def]
+
+theorem wOf_items (l : List Item) (hnd : l.Nodup) (x : Item) :
+    wOf x (l.map fun y => (y, y.weight)) = if x ∈ l then x.weight else 0 := by
+  induction l with
+  | nil => simp [wOf]
+  | cons y l ih =>
+    rw [List.map_cons, wOf_cons]
+    have hnd' := (List.nodup_cons.mp hnd)
+    rw [ih hnd'.2]
+    by_cases h : y = x
+    · subst h; simp [hnd'.1]
+    · have h' : ¬ x = y := fun e => h e.symm
+      simp [h, h']
+
+theorem mem_enabledAt {env : Env} {t : Nat} {rem : List Item} {x : Item} :
+    x ∈ enabledAt env t rem ↔ x ∈ rem ∧ env.pre x.id t = true := by
+  simp [enabledAt]
+
+theorem id_inj (l : List Item) (h : (l.map (·.id)).Nodup) : ∀ a ∈ l, ∀ b ∈ l, a.id = b.id → a = b := by
+  induction l with
+  | nil => intro a ha; cases ha
+  | cons y l ih =>
+    rw [List.map_cons, List.nodup_cons] at h
+    intro a ha b hb e
+    rw [List.mem_cons] at ha hb
+    rcases ha with rfl | ha <;> rcases hb with rfl | hb
+    · rfl
+    · exfalso; apply h.1; rw [e]; exact List.mem_map_of_mem hb
+    · exfalso; apply h.1; rw [← e]; exact List.mem_map_of_mem ha
+    · exact ih h.2 a ha b hb e
+
+theorem nodup_of_ids (l : List Item) (h : (l.map (·.id)).Nodup) : l.Nodup := by
+  unfold List.Nodup at *
+  rw [List.pairwise_map] at h
+  exact h.imp (fun hne e => hne (by rw [e]))
+
+theorem pickEnabled_nil (c : Config) (env : Env) (t : Nat) (rem : List Item) (h : enabledAt env t rem = []) :
+    pickEnabled c env t rem = Dist.pure .deadlock := by
+  simp [pickEnabled, h]
+
+theorem pickEnabled_single (c : Config) (hc : c.WF) (env : Env) (t : Nat) (rem : List Item) (x : Item)
+    (h : enabledAt env t rem = [x]) : pickEnabled c env t rem = Dist.pure (.picked x) := by
+  obtain ⟨_, h1, h2, _⟩ := hc
+  simp [pickEnabled, h, h1, h2]
+
+theorem pickEnabled_many (c : Config) (hc : c.WF) (env : Env) (t : Nat) (rem : List Item)
+    (h : 2 ≤ (enabledAt env t rem).length) :
+    pickEnabled c env t rem = weightedPick c ((enabledAt env t rem).map fun x => (x, x.weight)) := by
+  obtain ⟨_, h1, _, _⟩ := hc
+  have h0 : (enabledAt env t rem).isEmpty = false := by
+    cases h' : enabledAt env t rem with
+    | nil => rw [h'] at h; simp at h
+    | cons a l => rfl
+  have h2 : ¬ (enabledAt env t rem).length = 1 := by omega
+  simp [pickEnabled, h0, h1, h2]
+
+theorem totalW_pos_of (en : List Item) (h : ∀ x ∈ en, 0 < x.weight) (hne : en ≠ []) : 0 < totalW en := by
+  rw [← sumW_items]
+  apply sumW_pos
+  · intro x hx
+    simp only [List.mem_map] at hx
+    obtain ⟨y, hy, rfl⟩ := hx
+    exact h y hy
+  · simpa using hne
+
+/-- the pick: an enabled item is returned with probability weight / (total weight of the enabled items) -/
+theorem pick_prob (c : Config) (hc : c.WF) (env : Env) (t : Nat) (rem : List Item) (hnd : rem.Nodup)
+    (hnn : ∀ x ∈ enabledAt env t rem, 0 ≤ x.weight)
+    (hpos : enabledAt env t rem ≠ [] → 0 < totalW (enabledAt env t rem)) (x : Item) :
+    Dist.prob (pickEnabled c env t rem) (fun p => decide (p = Pick.picked x)) =
+      if x ∈ enabledAt env t rem then x.weight / totalW (enabledAt env t rem) else 0 := by
+  have hnd' : (enabledAt env t rem).Nodup := List.Nodup.sublist List.filter_sublist hnd
+  rcases hen : enabledAt env t rem with _ | ⟨y, _ | ⟨z, l⟩⟩
+  · rw [pickEnabled_nil _ _ _ _ hen, Dist.prob_pure]; simp
+  · rw [pickEnabled_single c hc _ _ _ _ hen, Dist.prob_pure]
+    have hp := hpos (by rw [hen]; simp)
+    rw [hen] at hp
+    simp [totalW] at hp
+    by_cases h : y = x
+    · subst h
+      have : y.weight ≠ 0 := ne_of_gt hp
+      simp [totalW]; field_simp
+    · have h' : ¬ x = y := fun e => h e.symm
+      simp [h, h']
+  · have hlen : 2 ≤ (enabledAt env t rem).length := by rw [hen]; simp
+    have hp := hpos (by rw [hen]; simp)
+    rw [pickEnabled_many c hc _ _ _ hlen, weightedPick_prob c hc.2.2.2 _ _ _ x, sumW_items, wOf_items _ hnd', hen]
+    · split <;> simp
+    · intro p hp'
+      simp only [List.mem_map] at hp'
+      obtain ⟨w, hw, rfl⟩ := hp'
+      exact hnn w hw
+    · rw [sumW_items]; exact hp
+
+/-- the pick only ever returns an item that is listed and whose preconditions hold now (any configuration) -/
+theorem pick_support (c : Config) (env : Env) (t : Nat) (rem : List Item) (x : Item) (q : Rat)
+    (h : (Pick.picked x, q) ∈ pickEnabled c env t rem) : x ∈ enabledAt env t rem := by
+  simp only [pickEnabled] at h
+  by_cases h1 : (enabledAt env t rem).isEmpty = true
+  · rw [if_pos h1] at h; simp [Dist.pure] at h
+  · rw [if_neg h1] at h
+    by_cases h2 : (enabledAt env t rem).length = c.shortcutLen
+    · rw [if_pos h2] at h
+      cases h3 : (enabledAt env t rem)[c.shortcutIdx]? with
+      | none => rw [h3] at h; simp [Dist.pure] at h
+      | some y =>
+        rw [h3] at h
+        simp [Dist.pure] at h
+        obtain ⟨rfl, _⟩ := h
+        exact List.mem_of_getElem? h3
+    · rw [if_neg h2] at h
+      obtain ⟨w, hw⟩ := weightedPick_support c _ x q h
+      simp only [List.mem_map, Prod.mk.injEq] at hw
+      obtain ⟨y, hy, rfl, _⟩ := hw
+      exact hy
+
+theorem failOutcome_status {α : Type} (t : Nat) (p : Pick α) : (failOutcome t p).status ≠ .done := by
+  cases p <;> simp [failOutcome]
+
+theorem chooseStep_fail (env : Env) (t : Nat) (p : Pick Item) (h : ∀ x, p ≠ .picked x) :
+    chooseStep env t p = Dist.pure (failOutcome t p) := by
+  cases p with
+  | picked x => exact absurd rfl (h x)
+  | _ => rfl
+
+theorem shuffleStep_fail (env : Env) (t : Nat) (r : Nat → List Item → Dist Outcome) (rem : List Item)
+    (p : Pick Item) (h : ∀ x, p ≠ .picked x) : shuffleStep env t r rem p = Dist.pure (failOutcome t p) := by
+  cases p with
+  | picked x => exact absurd rfl (h x)
+  | _ => rfl
+
+/-- the outcome "exactly item `x` was run, started at `t`" -/
+def chooseOutcome (env : Env) (t : Nat) (x : Item) : Outcome := ⟨[ranEvent t x], t + env.dur x.id t, .done⟩
+
+theorem pick_mass (c : Config) (hc : c.WF) (env : Env) (t : Nat) (rem : List Item) :
+    Dist.mass (pickEnabled c env t rem) = 1 := by
+  rcases hen : enabledAt env t rem with _ | ⟨y, _ | ⟨z, l⟩⟩
+  · rw [pickEnabled_nil _ _ _ _ hen]; exact Dist.mass_pure _
+  · rw [pickEnabled_single c hc _ _ _ _ hen]; exact Dist.mass_pure _
+  · have hlen : 2 ≤ (enabledAt env t rem).length := by rw [hen]; simp
+    rw [pickEnabled_many c hc _ _ _ hlen]; exact weightedPick_mass c hc.2.2.2 _
+
+theorem choose_prob_aux (c : Config) (hc : c.WF) (env : Env) (t : Nat) (items : List Item)
+    (hid : (items.map (·.id)).Nodup)
+    (hnn : ∀ x ∈ enabledAt env t items, 0 ≤ x.weight)
+    (hpos : enabledAt env t items ≠ [] → 0 < totalW (enabledAt env t items))
+    (x : Item) (hx : x ∈ items) :
+    Dist.prob (doChoose c env t items) (fun o => decide (o = chooseOutcome env t x)) =
+      if x ∈ enabledAt env t items then x.weight / totalW (enabledAt env t items) else 0 := by
+  unfold doChoose
+  rw [Dist.prob_bind]
+  refine Eq.trans (Dist.sum_indicator (pickEnabled c env t items) (Pick.picked x)
+      (fun p => Dist.prob (chooseStep env t p) (fun o => decide (o = chooseOutcome env t x))) 1 ?_) ?_
+  rotate_left
+  · rw [pick_prob c hc env t items (nodup_of_ids _ hid) hnn hpos x]; ring
+  · intro ap hap
+    obtain ⟨p, q⟩ := ap
+    cases p with
+    | picked y =>
+      have hy : y ∈ items := (mem_enabledAt.mp (pick_support c env t items y q hap)).1
+      simp only [chooseStep, Dist.prob_pure]
+      by_cases hyx : y = x
+      · subst hyx; simp [chooseOutcome]
+      · have hne : y.id ≠ x.id := fun e => hyx (id_inj items hid y hy x hx e)
+        simp [hyx, chooseOutcome, ranEvent, hne]
+    | deadlock => simp [chooseStep, Dist.prob_pure, failOutcome, chooseOutcome]
+    | emptyDomain => simp [chooseStep, Dist.prob_pure, failOutcome, chooseOutcome]
+    | negWeight => simp [chooseStep, Dist.prob_pure, failOutcome, chooseOutcome]
+    | crash => simp [chooseStep, Dist.prob_pure, failOutcome, chooseOutcome]
+
+
+/-! ### shuffle -/
+
+def timeline (env : Env) : Nat → List Item → List Event
+  | _, [] => []
+  | t, x :: rest => ranEvent t x :: timeline env (t + env.dur x.id t) rest
+
+def endOf (env : Env) : Nat → List Item → Nat
+  | t, [] => t
+  | t, x :: rest => endOf env (t + env.dur x.id t) rest
+
+/-- the outcome "the items ran to completion in exactly this order, the first one started at `t`" -/
+def orderOutcome (env : Env) (t : Nat) (order : List Item) : Outcome :=
+  ⟨timeline env t order, endOf env t order, .done⟩
+
+/-- stated probability of picking `x` among the not-yet-run items `rem` at step `t` -/
+def pickProb (env : Env) (t : Nat) (rem : List Item) (x : Item) : Rat :=
+  if x ∈ enabledAt env t rem then x.weight / totalW (enabledAt env t rem) else 0
+
+/-- the product formula: each factor conditions on the items still to run and on the step the pick happens at -/
+def orderProb (env : Env) : Nat → List Item → List Item → Rat
+  | _, rem, [] => if rem = [] then 1 else 0
+  | t, rem, x :: rest => pickProb env t rem x * orderProb env (t + env.dur x.id t) (rem.erase x) rest
+
+theorem shuffleAux_zero (c : Config) (env : Env) (t : Nat) (rem : List Item) :
+    shuffleAux c env 0 t rem = Dist.pure ⟨[], t, .done⟩ := by
+  simp [shuffleAux]
+
+theorem shuffleAux_succ (c : Config) (env : Env) (n t : Nat) (rem : List Item) (h : rem ≠ []) :
+    shuffleAux c env (n + 1) t rem =
+      Dist.bind (pickEnabled c env t rem) (shuffleStep env t (shuffleAux c env n) rem) := by
+  cases rem with
+  | nil => exact absurd rfl h
+  | cons a l => simp [shuffleAux]
+
+theorem shuffleAux_succ_nil (c : Config) (env : Env) (n t : Nat) :
+    shuffleAux c env (n + 1) t [] = Dist.pure ⟨[], t, .done⟩ := by
+  simp [shuffleAux]
+
+theorem prepend_eq_iff (e e' : Event) (o : Outcome) (l : List Event) (t' : Nat) (s : Status) :
+    Outcome.prepend [e] o = ⟨e' :: l, t', s⟩ ↔ e = e' ∧ o = ⟨l, t', s⟩ := by
+  obtain ⟨lg, et, st⟩ := o
+  simp [Outcome.prepend, and_assoc]
+
+theorem prepend_ne_nil (e : Event) (o : Outcome) (t' : Nat) (s : Status) :
+    Outcome.prepend [e] o ≠ ⟨[], t', s⟩ := by
+  obtain ⟨lg, et, st⟩ := o
+  simp [Outcome.prepend]
+
+theorem failOutcome_ne_done {α : Type} (t : Nat) (p : Pick α) (l : List Event) (e : Nat) :
+    failOutcome t p ≠ ⟨l, e, .done⟩ := by
+  intro h
+  have := failOutcome_status t p
+  rw [h] at this
+  exact this rfl
+
+theorem shuffleAux_order_prob (c : Config) (hc : c.WF) (env : Env) (U : List Item)
+    (hinj : ∀ a ∈ U, ∀ b ∈ U, a.id = b.id → a = b) (hw : ∀ x ∈ U, 0 < x.weight) :
+    ∀ (n t : Nat) (rem : List Item), rem.length = n → rem.Nodup → (∀ x ∈ rem, x ∈ U) →
+      ∀ order : List Item, (∀ y ∈ order, y ∈ U) →
+      Dist.prob (shuffleAux c env n t rem) (fun o => decide (o = orderOutcome env t order)) =
+        orderProb env t rem order := by
+  intro n
+  induction n with
+  | zero =>
+    intro t rem hlen _ _ order _
+    have : rem = [] := List.eq_nil_of_length_eq_zero hlen
+    subst this
+    rw [shuffleAux_zero, Dist.prob_pure]
+    cases order with
+    | nil => simp [orderOutcome, timeline, endOf, orderProb]
+    | cons y rest => simp [orderOutcome, timeline, endOf, orderProb, pickProb, enabledAt]
+  | succ n ih =>
+    intro t rem hlen hnd hU order hO
+    have hne : rem ≠ [] := by intro h; rw [h] at hlen; simp at hlen
+    rw [shuffleAux_succ c env n t rem hne]
+    cases order with
+    | nil =>
+      rw [show orderProb env t rem [] = 0 by simp [orderProb, hne]]
+      apply Dist.prob_false
+      intro ap hap
+      obtain ⟨o, q⟩ := ap
+      rw [Dist.mem_bind] at hap
+      obtain ⟨p, q1, q2, hp, ho, _⟩ := hap
+      by_cases hp' : ∃ x, p = .picked x
+      · obtain ⟨x, rfl⟩ := hp'
+        simp only [shuffleStep] at ho
+        rw [Dist.mem_map] at ho
+        obtain ⟨o', _, rfl⟩ := ho
+        exact decide_eq_false (prepend_ne_nil _ _ _ _)
+      · have hnp : ∀ x, p ≠ .picked x := fun x e => hp' ⟨x, e⟩
+        rw [shuffleStep_fail _ _ _ _ _ hnp, Dist.mem_pure] at ho
+        obtain ⟨rfl, _⟩ := ho
+        exact decide_eq_false (failOutcome_ne_done _ _ _ _)
+    | cons y rest =>
+      rw [Dist.prob_bind]
+      have hyU : y ∈ U := hO y (List.mem_cons_self)
+      have hwen : ∀ z ∈ enabledAt env t rem, 0 < z.weight := fun z hz => hw z (hU z (mem_enabledAt.mp hz).1)
+      refine Eq.trans (Dist.sum_indicator (pickEnabled c env t rem) (Pick.picked y)
+        (fun p => Dist.prob (shuffleStep env t (shuffleAux c env n) rem p)
+          (fun o => decide (o = orderOutcome env t (y :: rest))))
+        (orderProb env (t + env.dur y.id t) (rem.erase y) rest) ?_) ?_
+      rotate_left
+      · rw [pick_prob c hc env t rem hnd (fun z hz => le_of_lt (hwen z hz))
+          (fun hne' => totalW_pos_of _ hwen hne') y]
+        simp [orderProb, pickProb]
+      · intro ap hap
+        obtain ⟨p, q⟩ := ap
+        by_cases hp' : ∃ x, p = .picked x
+        · obtain ⟨x, rfl⟩ := hp'
+          have hx : x ∈ enabledAt env t rem := pick_support c env t rem x q hap
+          have hxr : x ∈ rem := (mem_enabledAt.mp hx).1
+          simp only [shuffleStep]
+          rw [Dist.prob_map]
+          by_cases hxy : x = y
+          · subst hxy
+            simp only [if_true]
+            have hlen' : (rem.erase x).length = n := by
+              rw [List.length_erase_of_mem hxr]; omega
+            rw [← ih (t + env.dur x.id t) (rem.erase x) hlen'
+              (List.Nodup.sublist List.erase_sublist hnd)
+              (fun z hz => hU z (List.mem_of_mem_erase hz)) rest
+              (fun z hz => hO z (List.mem_cons_of_mem _ hz))]
+            apply Dist.prob_congr
+            intro ap _
+            apply decide_eq_decide.mpr
+            simp only [orderOutcome, timeline, endOf]
+            rw [prepend_eq_iff]; simp
+          · have hne' : x.id ≠ y.id := fun e => hxy (hinj x (hU x hxr) y hyU e)
+            have hpne : ¬ (Pick.picked x = Pick.picked y) := by simpa using hxy
+            rw [if_neg hpne]
+            apply Dist.prob_false
+            intro ap _
+            simp [orderOutcome, timeline, endOf, prepend_eq_iff, ranEvent, hne']
+        · have hnp : ∀ x, p ≠ .picked x := fun x e => hp' ⟨x, e⟩
+          simp only []
+          rw [shuffleStep_fail _ _ _ _ _ hnp, Dist.prob_pure, if_neg (hnp y)]
+          rw [if_neg]
+          rw [decide_eq_true_eq]
+          exact failOutcome_ne_done t p _ _
+
+theorem shuffleAux_perm (c : Config) (env : Env) :
+    ∀ (n t : Nat) (rem : List Item), rem.length = n → ∀ (o : Outcome) (q : Rat),
+      (o, q) ∈ shuffleAux c env n t rem → o.status = .done →
+      (o.log.map (·.val)).Perm (rem.map fun x => (x.id : Int)) := by
+  intro n
+  induction n with
+  | zero =>
+    intro t rem hlen o q h _
+    have : rem = [] := List.eq_nil_of_length_eq_zero hlen
+    subst this
+    rw [shuffleAux_zero, Dist.mem_pure] at h
+    obtain ⟨rfl, _⟩ := h
+    simp
+  | succ n ih =>
+    intro t rem hlen o q h hs
+    have hne : rem ≠ [] := by intro h; rw [h] at hlen; simp at hlen
+    rw [shuffleAux_succ c env n t rem hne, Dist.mem_bind] at h
+    obtain ⟨p, q1, q2, hp, ho, _⟩ := h
+    by_cases hp' : ∃ x, p = .picked x
+    · obtain ⟨x, rfl⟩ := hp'
+      have hxr : x ∈ rem := (mem_enabledAt.mp (pick_support c env t rem x q1 hp)).1
+      simp only [shuffleStep] at ho
+      rw [Dist.mem_map] at ho
+      obtain ⟨o', ho', rfl⟩ := ho
+      have hlen' : (rem.erase x).length = n := by
+        rw [List.length_erase_of_mem hxr]; omega
+      have hs' : o'.status = .done := by simpa [Outcome.prepend] using hs
+      have := ih (t + env.dur x.id t) (rem.erase x) hlen' o' q2 ho' hs'
+      simp only [Outcome.prepend, List.map_cons, List.singleton_append, ranEvent]
+      exact (List.Perm.cons _ this).trans ((List.perm_cons_erase hxr).map (fun x : Item => (x.id : Int))).symm
+    · have hnp : ∀ x, p ≠ .picked x := fun x e => hp' ⟨x, e⟩
+      rw [shuffleStep_fail _ _ _ _ _ hnp, Dist.mem_pure] at ho
+      obtain ⟨rfl, _⟩ := ho
+      exact absurd hs (failOutcome_status t p)
+
+/-! ### total mass -/
+
+theorem shuffleAux_mass (c : Config) (hc : c.WF) (env : Env) :
+    ∀ (n t : Nat) (rem : List Item), Dist.mass (shuffleAux c env n t rem) = 1 := by
+  intro n
+  induction n with
+  | zero => intro t rem; rw [shuffleAux_zero]; exact Dist.mass_pure _
+  | succ n ih =>
+    intro t rem
+    by_cases hne : rem = []
+    · subst hne; rw [shuffleAux_succ_nil]; exact Dist.mass_pure _
+    · rw [shuffleAux_succ c env n t rem hne, Dist.mass_bind, pick_mass c hc]
+      intro ap _
+      obtain ⟨p, q⟩ := ap
+      cases p with
+      | picked x => simp only [shuffleStep]; rw [Dist.mass_map]; exact ih _ _
+      | deadlock => exact Dist.mass_pure _
+      | emptyDomain => exact Dist.mass_pure _
+      | negWeight => exact Dist.mass_pure _
+      | crash => exact Dist.mass_pure _
+
+theorem doChoose_mass (c : Config) (hc : c.WF) (env : Env) (t : Nat) (items : List Item) :
+    Dist.mass (doChoose c env t items) = 1 := by
+  unfold doChoose
+  rw [Dist.mass_bind, pick_mass c hc]
+  intro ap _
+  obtain ⟨p, q⟩ := ap
+  cases p <;> exact Dist.mass_pure _
+
+theorem mass_const {α : Type} (xs : List α) (r : Rat) : Dist.mass (xs.map fun x => (x, r)) = xs.length * r := by
+  induction xs with
+  | nil => simp [Dist.mass]
+  | cons a l ih =>
+    unfold Dist.mass at *
+    simp only [List.map_cons, List.sum_cons, List.length_cons, ih]
+    push_cast; ring
+
+theorem uniformOn_mass {α : Type} (xs : List α) (h : xs ≠ []) : Dist.mass (uniformOn xs) = 1 := by
+  unfold uniformOn
+  rw [mass_const]
+  have h1 : 0 < xs.length := List.length_pos_iff.mpr h
+  have h2 : (xs.length : Rat) ≠ 0 := by exact_mod_cast (Nat.pos_iff_ne_zero.mp h1)
+  field_simp
+
+theorem intRange_length (lo : Int) (n : Nat) : (intRange lo n).length = n := by
+  induction n generalizing lo with
+  | zero => rfl
+  | succ n ih => simp [intRange, ih]
+
+theorem drawDist_mass (c : Config) (hc : c.WF) (vals : List Int) (s : DrawSpec) :
+    Dist.mass (drawDist c vals s) = 1 := by
+  cases s with
+  | range lo hi =>
+    simp only [drawDist]
+    split
+    · exact Dist.mass_pure _
+    · rename_i h
+      apply uniformOn_mass
+      intro hnil
+      have := congrArg List.length hnil
+      simp [intRange_length] at this
+      omega
+  | weighted opts => exact weightedPick_mass c hc.2.2.2 _
+  | uniform opts =>
+    simp only [drawDist]
+    split
+    · exact Dist.mass_pure _
+    · rename_i h
+      apply uniformOn_mass
+      intro hnil
+      simp at hnil
+      simp [hnil] at h
+
+theorem andThen_mass (o : Outcome) (k : Nat → Dist Outcome) (h : ∀ t, Dist.mass (k t) = 1) :
+    Dist.mass (andThen o k) = 1 := by
+  unfold andThen
+  split
+  · rw [Dist.mass_map]; exact h _
+  · exact Dist.mass_pure _
+
+theorem exec_mass (c : Config) (hc : c.WF) (env : Env) :
+    ∀ (ss : List Stmt) (t : Nat) (vals : List Int), Dist.mass (exec c env ss t vals) = 1 := by
+  intro ss
+  induction ss with
+  | nil => intro t vals; simp only [exec]; exact Dist.mass_pure _
+  | cons s ss ih =>
+    intro t vals
+    cases s with
+    | wait n => simp only [exec]; exact ih _ _
+    | draw d =>
+      simp only [exec]
+      rw [Dist.mass_bind, drawDist_mass c hc]
+      intro ap _
+      obtain ⟨p, q⟩ := ap
+      cases p with
+      | picked z => simp only [drawStep]; rw [Dist.mass_map]; exact ih _ _
+      | deadlock => exact Dist.mass_pure _
+      | emptyDomain => exact Dist.mass_pure _
+      | negWeight => exact Dist.mass_pure _
+      | crash => exact Dist.mass_pure _
+    | choose items =>
+      simp only [exec]
+      rw [Dist.mass_bind, doChoose_mass c hc]
+      intro ap _
+      exact andThen_mass _ _ (fun t' => ih t' vals)
+    | shuffle items =>
+      simp only [exec]
+      rw [Dist.mass_bind]
+      · exact shuffleAux_mass c hc env _ _ _
+      · intro ap _
+        exact andThen_mass _ _ (fun t' => ih t' vals)
+
+
+/-! ### run-time draws -/
+
+def drawEvents : Nat → List Int → List Event
+  | _, [] => []
+  | t, v :: vs => ⟨t, 1, v⟩ :: drawEvents (t + 1) vs
+
+/-- chain rule: each factor is the *stated* distribution of that statement given the values drawn before it -/
+def chainProb (c : Config) : List Int → List DrawSpec → List Int → Rat
+  | _, [], [] => 1
+  | vals, s :: ss, v :: vs =>
+    Dist.prob (drawDist c vals s) (fun p => decide (p = Pick.picked v)) * chainProb c (vals ++ [v]) ss vs
+  | _, _, _ => 0
+
+def Operand.closed : Operand → Bool
+  | .const _ => true
+  | .prev _ => false
+
+/-- the distribution expression does not mention earlier draws -/
+def DrawSpec.closed : DrawSpec → Bool
+  | .range lo hi => lo.closed && hi.closed
+  | _ => true
+
+/-- product of the stated marginals (each taken with an empty history) -/
+def indepProb (c : Config) : List DrawSpec → List Int → Rat
+  | [], [] => 1
+  | s :: ss, v :: vs => Dist.prob (drawDist c [] s) (fun p => decide (p = Pick.picked v)) * indepProb c ss vs
+  | _, _ => 0
+
+theorem drawStep_fail (t : Nat) (r : Int → Dist Outcome) (p : Pick Int) (h : ∀ z, p ≠ .picked z) :
+    drawStep t r p = Dist.pure (failOutcome t p) := by
+  cases p with
+  | picked x => exact absurd rfl (h x)
+  | _ => rfl
+
+theorem exec_draws_chain (c : Config) (env : Env) :
+    ∀ (ss : List DrawSpec) (vals : List Int) (t : Nat) (vs : List Int),
+      Dist.prob (exec c env (ss.map Stmt.draw) t vals)
+        (fun o => decide (o = ⟨drawEvents t vs, t + ss.length, .done⟩)) = chainProb c vals ss vs := by
+  intro ss
+  induction ss with
+  | nil =>
+    intro vals t vs
+    simp only [List.map_nil, exec, Dist.prob_pure]
+    cases vs with
+    | nil => simp [drawEvents, chainProb]
+    | cons v vs => simp [drawEvents, chainProb]
+  | cons s ss ih =>
+    intro vals t vs
+    simp only [List.map_cons, exec]
+    cases vs with
+    | nil =>
+      rw [show chainProb c vals (s :: ss) [] = 0 by simp [chainProb]]
+      apply Dist.prob_false
+      intro ap hap
+      obtain ⟨o, q⟩ := ap
+      rw [Dist.mem_bind] at hap
+      obtain ⟨p, q1, q2, hp, ho, _⟩ := hap
+      by_cases hp' : ∃ z, p = .picked z
+      · obtain ⟨z, rfl⟩ := hp'
+        simp only [drawStep] at ho
+        rw [Dist.mem_map] at ho
+        obtain ⟨o', _, rfl⟩ := ho
+        exact decide_eq_false (prepend_ne_nil _ _ _ _)
+      · have hnp : ∀ z, p ≠ .picked z := fun z e => hp' ⟨z, e⟩
+        rw [drawStep_fail _ _ _ hnp, Dist.mem_pure] at ho
+        obtain ⟨rfl, _⟩ := ho
+        exact decide_eq_false (failOutcome_ne_done _ _ _ _)
+    | cons v vs =>
+      rw [Dist.prob_bind]
+      refine Eq.trans (Dist.sum_indicator (drawDist c vals s) (Pick.picked v)
+        (fun p => Dist.prob (drawStep t (fun z => exec c env (ss.map Stmt.draw) (t + 1) (vals ++ [z])) p)
+          (fun o => decide (o = ⟨drawEvents t (v :: vs), t + (s :: ss).length, .done⟩)))
+        (chainProb c (vals ++ [v]) ss vs) ?_) ?_
+      rotate_left
+      · simp [chainProb]
+      · intro ap hap
+        obtain ⟨p, q⟩ := ap
+        by_cases hp' : ∃ z, p = .picked z
+        · obtain ⟨z, rfl⟩ := hp'
+          simp only [drawStep]
+          rw [Dist.prob_map]
+          have hlen : t + (s :: ss).length = t + 1 + ss.length := by simp; omega
+          by_cases hzv : z = v
+          · subst hzv
+            simp only [if_true]
+            rw [← ih (vals ++ [z]) (t + 1) vs]
+            apply Dist.prob_congr
+            intro ap _
+            apply decide_eq_decide.mpr
+            simp only [drawEvents]
+            rw [prepend_eq_iff, hlen]; simp
+          · have hpne : ¬ (Pick.picked z = Pick.picked v) := by simpa using hzv
+            rw [if_neg hpne]
+            apply Dist.prob_false
+            intro ap _
+            apply decide_eq_false
+            simp only [drawEvents]
+            rw [prepend_eq_iff]
+            intro h
+            apply hzv
+            have := h.1
+            simpa using this
+        · have hnp : ∀ z, p ≠ .picked z := fun z e => hp' ⟨z, e⟩
+          simp only []
+          rw [drawStep_fail _ _ _ hnp, Dist.prob_pure, if_neg (hnp v)]
+          rw [if_neg]
+          rw [decide_eq_true_eq]
+          exact failOutcome_ne_done t p _ _
+
+theorem drawDist_closed (c : Config) (vals : List Int) (s : DrawSpec) (h : s.closed = true) :
+    drawDist c vals s = drawDist c [] s := by
+  cases s with
+  | range lo hi =>
+    cases lo <;> cases hi <;> first | rfl | (simp [DrawSpec.closed, Operand.closed] at h)
+  | weighted opts => rfl
+  | uniform opts => rfl
+
+theorem chainProb_indep (c : Config) :
+    ∀ (ss : List DrawSpec) (vals : List Int) (vs : List Int), (∀ s ∈ ss, s.closed = true) →
+      chainProb c vals ss vs = indepProb c ss vs := by
+  intro ss
+  induction ss with
+  | nil => intro vals vs _; cases vs <;> simp [chainProb, indepProb]
+  | cons s ss ih =>
+    intro vals vs h
+    cases vs with
+    | nil => simp [chainProb, indepProb]
+    | cons v vs =>
+      simp only [chainProb, indepProb]
+      rw [drawDist_closed c vals s (h s (List.mem_cons_self)),
+        ih (vals ++ [v]) vs (fun s' hs' => h s' (List.mem_cons_of_mem _ hs'))]
+
+/-! ### the stated marginals -/
+
+theorem prob_const_picked (xs : List Int) (r : Rat) (v : Int) :
+    Dist.prob ((xs.map Pick.picked).map fun x => (x, r)) (fun p => decide (p = Pick.picked v)) =
+      (xs.count v : Rat) * r := by
+  induction xs with
+  | nil => simp [Dist.prob_nil]
+  | cons a l ih =>
+    simp only [List.map_cons]
+    rw [Dist.prob_cons, ih, List.count_cons]
+    by_cases h : a = v
+    · subst h; simp; ring
+    · simp [h]
+
+theorem count_intRange (lo : Int) (n : Nat) (v : Int) :
+    (intRange lo n).count v = if lo ≤ v ∧ v < lo + n then 1 else 0 := by
+  induction n generalizing lo with
+  | zero => simp [intRange]
+  | succ n ih =>
+    simp only [intRange, List.count_cons, ih]
+    push_cast
+    by_cases h : lo = v
+    · subst h
+      have h1 : ¬ (lo + 1 ≤ lo ∧ lo < lo + 1 + (n : Int)) := by omega
+      have h2 : lo ≤ lo ∧ lo < lo + ((n : Int) + 1) := by omega
+      simp only [if_neg h1, if_pos h2]; simp
+    · by_cases h3 : lo + 1 ≤ v ∧ v < lo + 1 + (n : Int)
+      · have h2 : lo ≤ v ∧ v < lo + ((n : Int) + 1) := by omega
+        simp only [if_pos h3, if_pos h2]; simp [h]
+      · have h2 : ¬ (lo ≤ v ∧ v < lo + ((n : Int) + 1)) := by omega
+        simp only [if_neg h3, if_neg h2]; simp [h]
+
+theorem drawDist_range_const (c : Config) (vals : List Int) (l h : Int) (hlh : l ≤ h) :
+    drawDist c vals (.range (.const l) (.const h)) =
+      uniformOn ((intRange l (h - l + 1).toNat).map Pick.picked) := by
+  show (if h < l then Dist.pure Pick.emptyDomain
+    else uniformOn ((intRange l (h - l + 1).toNat).map Pick.picked)) = _
+  rw [if_neg (by omega)]
+
+/-- `DiscreteRange(l, h)` evaluated at run time is uniform on the integers `l..h` -/
+theorem range_prob (c : Config) (vals : List Int) (l h v : Int) (hlh : l ≤ h) :
+    Dist.prob (drawDist c vals (.range (.const l) (.const h))) (fun p => decide (p = Pick.picked v)) =
+      if l ≤ v ∧ v ≤ h then 1 / ((h - l + 1 : Int) : Rat) else 0 := by
+  rw [drawDist_range_const c vals l h hlh]
+  unfold uniformOn
+  rw [prob_const_picked, count_intRange, List.length_map, intRange_length]
+  have hn : (((h - l + 1).toNat : Nat) : Int) = h - l + 1 := by omega
+  have hn' : (((h - l + 1).toNat : Nat) : Rat) = ((h - l + 1 : Int) : Rat) := by
+    have e : (((h - l + 1).toNat : Nat) : Rat) = ((((h - l + 1).toNat : Nat) : Int) : Rat) :=
+      (Int.cast_natCast _).symm
+    rw [e, hn]
+  rw [hn, hn']
+  by_cases hv : l ≤ v ∧ v ≤ h
+  · have : l ≤ v ∧ v < l + (h - l + 1) := by omega
+    simp [hv, this]
+  · have : ¬ (l ≤ v ∧ v < l + (h - l + 1)) := by omega
+    simp [hv, this]
+
+/-! ### `random.choices`: the set of raw uniform values selecting index `i` is an interval of length `wᵢ / total` -/
+
+theorem bisectRight_cumulative (ws : List Rat) (hpos : ∀ w ∈ ws, 0 < w) (acc x : Rat) (hx : acc ≤ x) (i : Nat)
+    (hi : i < ws.length) :
+    bisectRight (cumulative acc ws) x = i ↔
+      acc + (ws.take i).sum ≤ x ∧ x < acc + (ws.take (i + 1)).sum := by
+  induction ws generalizing acc i with
+  | nil => simp at hi
+  | cons w ws ih =>
+    have hw : 0 < w := hpos w (List.mem_cons_self)
+    simp only [cumulative, bisectRight]
+    cases i with
+    | zero =>
+      simp only [List.take_zero, List.sum_nil, add_zero, List.take_succ_cons, List.sum_cons]
+      by_cases hle : acc + w ≤ x
+      · rw [if_pos hle]
+        constructor
+        · intro h; omega
+        · intro h; linarith [h.2]
+      · rw [if_neg hle]
+        constructor
+        · intro _; exact ⟨hx, by linarith⟩
+        · intro _; rfl
+    | succ j =>
+      have hj : j < ws.length := by simpa using hi
+      simp only [List.take_succ_cons, List.sum_cons]
+      by_cases hle : acc + w ≤ x
+      · rw [if_pos hle]
+        have := ih (fun w' hw' => hpos w' (List.mem_cons_of_mem _ hw')) (acc + w) hle j hj
+        constructor
+        · intro h
+          have h' : bisectRight (cumulative (acc + w) ws) x = j := by omega
+          have := this.mp h'
+          constructor <;> linarith [this.1, this.2]
+        · intro h
+          have h' : acc + w + (ws.take j).sum ≤ x ∧ x < acc + w + (ws.take (j + 1)).sum := by
+            constructor <;> linarith [h.1, h.2]
+          have := this.mpr h'
+          omega
+      · rw [if_neg hle]
+        constructor
+        · intro h; omega
+        · intro h
+          exfalso
+          have hnn : 0 ≤ (ws.take j).sum := by
+            have : ∀ (l : List Rat), (∀ w ∈ l, 0 < w) → 0 ≤ l.sum := by
+              intro l hl
+              induction l with
+              | nil => simp
+              | cons a l ihl =>
+                rw [List.sum_cons]
+                have := hl a (List.mem_cons_self)
+                have := ihl (fun w hw => hl w (List.mem_cons_of_mem _ hw))
+                linarith
+            exact this _ (fun w' hw' => hpos w' (List.mem_cons_of_mem _ (List.mem_of_mem_take hw')))
+          linarith [h.1]
+
+
+theorem bisectRight_lt (ws : List Rat) (hpos : ∀ w ∈ ws, 0 < w) (acc x : Rat) (hx : acc ≤ x)
+    (hlt : x < acc + ws.sum) : bisectRight (cumulative acc ws) x < ws.length := by
+  induction ws generalizing acc with
+  | nil => simp at hlt; linarith
+  | cons w ws ih =>
+    simp only [cumulative, bisectRight, List.length_cons]
+    by_cases hle : acc + w ≤ x
+    · rw [if_pos hle]
+      have := ih (fun w' hw' => hpos w' (List.mem_cons_of_mem _ hw')) (acc + w) hle
+        (by rw [List.sum_cons] at hlt; linarith)
+      omega
+    · rw [if_neg hle]; omega
+
+theorem sum_pos_of_pos (ws : List Rat) (hpos : ∀ w ∈ ws, 0 < w) (hne : ws ≠ []) : 0 < ws.sum := by
+  cases ws with
+  | nil => exact absurd rfl hne
+  | cons w ws =>
+    rw [List.sum_cons]
+    have h1 := hpos w (List.mem_cons_self)
+    have h2 : 0 ≤ ws.sum := by
+      have : ∀ (l : List Rat), (∀ w ∈ l, 0 < w) → 0 ≤ l.sum := by
+        intro l hl
+        induction l with
+        | nil => simp
+        | cons a l ihl =>
+          rw [List.sum_cons]
+          have := hl a (List.mem_cons_self)
+          have := ihl (fun w hw => hl w (List.mem_cons_of_mem _ hw))
+          linarith
+      exact this ws (fun w' hw' => hpos w' (List.mem_cons_of_mem _ hw'))
+    linarith
+
+
+/-! ### rejection happens only at a deadlock -/
+
+theorem weightedPick_reject {α : Type} (c : Config) (hc : c.dropZero = true) (xs : List (α × Rat)) (p : Pick α)
+    (q : Rat) (h : (p, q) ∈ weightedPick c xs) (hp : p = .deadlock ∨ p = .emptyDomain) : ∀ x ∈ xs, x.2 = 0 := by
+  unfold weightedPick at h
+  by_cases h1 : (xs.any fun x => decide (x.2 < 0)) = true
+  · rw [if_pos h1, Dist.mem_pure] at h
+    rcases hp with rfl | rfl <;> simp at h
+  · rw [if_neg h1] at h
+    simp only [hc, if_true] at h
+    by_cases h2 : (xs.filter (fun x => x.2 != 0)).isEmpty = true
+    · intro x hx
+      have hnil : xs.filter (fun x => x.2 != 0) = [] := List.isEmpty_iff.mp h2
+      have := List.filter_eq_nil_iff.mp hnil x hx
+      simpa using this
+    · rw [if_neg h2] at h
+      simp only [List.mem_map, Prod.mk.injEq] at h
+      obtain ⟨x, _, hx, _⟩ := h
+      rcases hp with rfl | rfl <;> simp at hx
+
+theorem pick_reject (c : Config) (hc : c.WF) (env : Env) (t : Nat) (rem : List Item) (p : Pick Item) (q : Rat)
+    (h : (p, q) ∈ pickEnabled c env t rem) (hp : p = .deadlock ∨ p = .emptyDomain) :
+    ∀ x ∈ enabledAt env t rem, x.weight = 0 := by
+  rcases hen : enabledAt env t rem with _ | ⟨y, _ | ⟨z, l⟩⟩
+  · intro x hx; cases hx
+  · rw [pickEnabled_single c hc _ _ _ _ hen, Dist.mem_pure] at h
+    rcases hp with rfl | rfl <;> simp at h
+  · have hlen : 2 ≤ (enabledAt env t rem).length := by rw [hen]; simp
+    rw [pickEnabled_many c hc _ _ _ hlen] at h
+    have := weightedPick_reject c hc.2.2.2 _ p q h hp
+    intro x hx
+    rw [← hen] at hx
+    exact this (x, x.weight) (List.mem_map.mpr ⟨x, hx, rfl⟩)
+
+theorem failOutcome_rejected {α : Type} (t : Nat) (p : Pick α) (h : (failOutcome t p).status = .rejected) :
+    p = .deadlock ∨ p = .emptyDomain := by
+  cases p <;> simp [failOutcome] at h ⊢
+
+theorem failOutcome_log {α : Type} (t : Nat) (p : Pick α) : (failOutcome t p).log = [] ∧ (failOutcome t p).endTime = t := by
+  cases p <;> simp [failOutcome]
+
+theorem shuffleAux_rejected (c : Config) (hc : c.WF) (env : Env) :
+    ∀ (n t : Nat) (rem : List Item), rem.length = n → ∀ (o : Outcome) (q : Rat),
+      (o, q) ∈ shuffleAux c env n t rem → o.status = .rejected →
+      ∃ rest : List Item, rest ≠ [] ∧
+        ((o.log.map (·.val)) ++ rest.map (fun x => (x.id : Int))).Perm (rem.map fun x => (x.id : Int)) ∧
+        ∀ x ∈ enabledAt env o.endTime rest, x.weight = 0 := by
+  intro n
+  induction n with
+  | zero =>
+    intro t rem _ o q h hs
+    rw [shuffleAux_zero, Dist.mem_pure] at h
+    obtain ⟨rfl, _⟩ := h
+    simp at hs
+  | succ n ih =>
+    intro t rem hlen o q h hs
+    have hne : rem ≠ [] := by intro h; rw [h] at hlen; simp at hlen
+    rw [shuffleAux_succ c env n t rem hne, Dist.mem_bind] at h
+    obtain ⟨p, q1, q2, hp, ho, _⟩ := h
+    by_cases hp' : ∃ x, p = .picked x
+    · obtain ⟨x, rfl⟩ := hp'
+      have hxr : x ∈ rem := (mem_enabledAt.mp (pick_support c env t rem x q1 hp)).1
+      simp only [shuffleStep] at ho
+      rw [Dist.mem_map] at ho
+      obtain ⟨o', ho', rfl⟩ := ho
+      have hlen' : (rem.erase x).length = n := by
+        rw [List.length_erase_of_mem hxr]; omega
+      have hs' : o'.status = .rejected := by simpa [Outcome.prepend] using hs
+      obtain ⟨rest, hrne, hperm, hz⟩ := ih (t + env.dur x.id t) (rem.erase x) hlen' o' q2 ho' hs'
+      refine ⟨rest, hrne, ?_, ?_⟩
+      · simp only [Outcome.prepend, List.map_cons, ranEvent, List.cons_append]
+        exact (List.Perm.cons _ hperm).trans ((List.perm_cons_erase hxr).map (fun x : Item => (x.id : Int))).symm
+      · simpa [Outcome.prepend] using hz
+    · have hnp : ∀ x, p ≠ .picked x := fun x e => hp' ⟨x, e⟩
+      rw [shuffleStep_fail _ _ _ _ _ hnp, Dist.mem_pure] at ho
+      obtain ⟨rfl, _⟩ := ho
+      have hpr := failOutcome_rejected t p hs
+      have hl := failOutcome_log t p
+      refine ⟨rem, hne, ?_, ?_⟩
+      · rw [hl.1]; simp
+      · rw [hl.2]; exact pick_reject c hc env t rem p q1 hp hpr
+
 end Scenic.Choose
